@@ -104,6 +104,10 @@ def strata(tier):
                           {"c": op, "a": {"c": op, "a": A, "b": X}, "b": B}, {"c": op, "a": {"c": op, "a": A, "b": B}, "b": A}):
                     yield {"mode": "tree", "via": "spec", "container": cont, "tree": t, "flatten": True, "stratum": "twin-operands"}
                     yield {"mode": "tree", "via": "op", "container": cont, "tree": t, "stratum": "twin-operands"}
+    for op in OPS:
+        for fn in ("in_", "not_in"):
+            for pos in ("L", "R", "LL", "RR"):
+                yield {"mode": "edit", "op": op, "fn": fn, "pos": pos}
     # operands with data-path arguments, filtered with a source document (every position of the path operand)
     pl, plain = _src_leaves()
     for i, A in enumerate(pl):
@@ -346,7 +350,39 @@ def c17_substitute(t, src):
     return c17.substitute(t, src)
 
 
+def run_edit(case, ctx):
+    """an operand's container argument is edited in place by its owner AFTER the combination was built: the combination is
+    still, item by item, the Boolean operation of what its operands give now"""
+    op, fn, pos = case["op"], case["fn"], case["pos"]
+    import valida.conditions as C
+    allowed = [1, 2, "a"]
+    A = getattr(C.Value, fn)(allowed)
+    B = C.Value.greater_than(1)
+    X = C.Value.truthy()
+    mk = {"and": lambda x, y: x & y, "or": lambda x, y: x | y, "xor": lambda x, y: x ^ y}[op]
+    ok, comb = call(lambda: {"L": lambda: mk(A, B), "R": lambda: mk(B, A), "LL": lambda: mk(mk(A, X), B), "RR": lambda: mk(B, mk(X, A))}[pos]())
+    if not ok:
+        ctx.violate(f"C02/{comb.key()}/{op}/edit", f"{comb!r}")
+        return
+    cont = [1, 3, 7, "a", "zz", None, 2]
+    truth = {"and": lambda x, y: x and y, "or": lambda x, y: x or y, "xor": lambda x, y: x != y}[op]
+    for step in range(3):
+        ra, rb, rx = A.filter(cont).result, B.filter(cont).result, X.filter(cont).result
+        exp = {"L": [truth(a, b) for a, b in zip(ra, rb)], "R": [truth(b, a) for a, b in zip(ra, rb)],
+               "LL": [truth(truth(a, x), b) for a, b, x in zip(ra, rb, rx)], "RR": [truth(b, truth(x, a)) for a, b, x in zip(ra, rb, rx)]}[pos]
+        ok, got = call(lambda: comb.filter(cont).result)
+        if not ok or got != exp:
+            ctx.violate(f"C02/pointwise/{op}/operand-argument-edited", f"after the owner of the list argument of an operand edited it in place "
+                        f"({allowed!r}) the combination gives {got!r}, its operands combine to {exp!r} (position {pos}, {fn})")
+            break
+        allowed.append([3, "zz", 7][step])
+    ctx.count("operand-argument-edited-after-combining")
+    ctx.mark_nontrivial(("edit", op, fn, pos))
+
+
 def run(case, ctx):
+    if case["mode"] == "edit":
+        return run_edit(case, ctx)
     if case["mode"] == "source":
         run_source(case, ctx)
     elif case["mode"] == "tree":
